@@ -136,6 +136,33 @@ def runner_case(case):
             while time.monotonic() < t_end and not all(f.done() for f in list(futs._futures)):
                 time.sleep(0.05)
             time.sleep(0.1)
+        if case[2] == "stopfirst":
+            # stop() is called while units are still queued (more outstanding units than workers):
+            # it has to let every submitted unit run and resolve its future before it returns
+            t0 = time.monotonic()
+            ev.append((t0, "X", -1))
+            runner.stop()
+            out["stop_s"] = time.monotonic() - t0
+            out["thread_alive"] = runner._thread.is_alive()
+            out["loop_running"] = runner._loop.is_running()
+            for f in list(futs._futures):
+                u = pendingf[id(f)]
+                if not f.done():
+                    delivered.append((u, "U", "future never resolved although stop() returned", None))
+                    continue
+                try:
+                    r = f.result()
+                    delivered.append((u, "R", r.get("unit"), r.get("result")))
+                except Exception as e:  # noqa: BLE001
+                    delivered.append((u, "E", str(e), None))
+            out["extra_future"] = False
+            out["delivered"] = delivered
+            runner._executor.shutdown(wait=True)
+            if os.path.exists(log):
+                for line in open(log):
+                    k, u, t, pid, *rest = line.split()
+                    ev.append((float(t), "s" if k == "start" else "f", int(u), rest[0] if rest else ""))
+            return out
         for _ in units:
             f = futs.as_completed()
             t = time.monotonic()
@@ -216,9 +243,9 @@ def run(ctx):
     cases = []
     for W in (1, 2, 3) if quick else (1, 2, 3, 4):
         n_intf = W + 1 if W > 1 else 2
-        for T in range(W, W + (4 if quick else 6)):
+        for T in range(W, W + (4 if quick else 7)):
             scheds = [tuple(s) for s in itertools.product(range(W), repeat=T)] if W > 1 else [tuple([0] * T)]
-            cap = 12 if quick else 60
+            cap = 12 if quick else 150
             if len(scheds) > cap:
                 scheds = rng.sample(scheds, cap)
             for s in scheds:
@@ -331,6 +358,9 @@ def run(ctx):
     # late consumers: all futures are done before the first as_completed()
     for W, units in [(3, [(2, 0), (1, 1), (3, 0), (1, 0)]), (2, [(1, 0), (2, 0), (1, 1)]), (1, [(1, 0), (1, 0)])] + ([] if quick else shapes[4:10]):
         rcases.append((W, units, "late"))
+    # stop() with a backlog
+    for W, units in [(2, [(1, 0)] * 4 + [(1, 1)] + [(1, 0)] * 2), (1, [(1, 0), (1, 1), (1, 0)])] + ([] if quick else [(3, [(1, 0)] * 10), (2, [(2, 1), (1, 0), (1, 0), (3, 0), (1, 1)])]):
+        rcases.append((W, units, "stopfirst"))
     rres = H.run_many(runner_case, rcases, jobs=8, timeout=300)
     reqs, keep = [], []
     for case, (tag, res) in zip(rcases, rres):
@@ -361,6 +391,9 @@ def run(ctx):
             oracle.append("runner did not shut down (event loop thread still alive after stop())")
         if oracle:
             ctx.violation(f"C17 statement fails on the implementation (task runner): {oracle[0]}", {"rcase": case, "observed": res}, found_input=True)
+            continue
+        if case[2] == "stopfirst":
+            ctx.dist("runner:stop_with_backlog")
             continue
         # the order of near-simultaneous events is not observable (a future is resolved in the event-loop
         # thread some time after the task logged its end): such traces are judged by the oracle only
